@@ -81,7 +81,8 @@ def build_dataset(sc, nm):
     ds = xr.Dataset(coords={d: coords[d] for d in order})
     missing = [d for d in sc["dims"] if nm(d) not in ds.dims]
     if missing:
-        ds["_shape"] = xr.DataArray(np.zeros([sc["dims"][d] for d in missing]), dims=[nm(d) for d in missing])
+        for d in missing:
+            ds["_len_" + nm(d)] = xr.DataArray(np.zeros(sc["dims"][d]), dims=[nm(d)])
     for name, spec in sc.get("ndcoords", {}).items():
         ds = ds.assign_coords({nm(name): xr.DataArray(np.asarray(spec["values"], dtype=np.float64), dims=[nm(d) for d in spec["dims"]])})
     for v, spec in sc.get("vars", {}).items():
